@@ -140,4 +140,4 @@ KNOWN_PREDICATES = {}
 
 # coverage-guided second driver (atheris / libFuzzer through Hypothesis' fuzz_one_input) for the core clauses: (clause, quick runs, thorough runs)
 from harness.covfuzz import cov_clauses  # noqa: E402
-CLAUSES += cov_clauses('C04', CLAUSES, [('minimize', 2000, 40000), ('quotient', 2000, 40000), ('hopcroft', 2000, 40000)])
+CLAUSES += cov_clauses('C04', CLAUSES, [('minimize', 2000, 13333), ('quotient', 2000, 13333), ('hopcroft', 2000, 13333)])
